@@ -216,6 +216,39 @@ fn relation_cases(ctx: &mut Ctx, w: &World, idx: usize) {
     }
 }
 
+/// Witness-deviation sweep: the forger's hidden messages and commitment scalars (20 coordinates: state / close-state
+/// message, state / close-state commitment scalars) are moved in every *pair* of coordinates, by δ in both or by +δ / -δ.
+/// Every Schnorr equation still holds (the proofs are computed for the deviated witness), so only the verifier's
+/// relations between response scalars decide — the real verdict must be the model's for every pair: a verifier that
+/// checks a coarser relation (a sum, a chunked comparison, a dropped comparison) accepts one of them.
+fn sweep_cases(ctx: &mut Ctx, w: &World, idx: usize) {
+    if !ctx.begin_case(idx, "establish-witness-deviation-sweep") {
+        return;
+    }
+    let a = Agreed::random(ctx);
+    let nonce = rand_scalar(&mut ctx.prng);
+    let lock = rand_scalar(&mut ctx.prng);
+    let ms = agreed_msg(&a, &nonce, &lock);
+    let coord = |f: &mut Forge, k: usize, d: Scalar| { match k / 5 { 0 => f.ms_s[k % 5] += d, 1 => f.ms_c[k % 5] += d, 2 => f.ts_s[k % 5] += d, _ => f.ts_c[k % 5] += d } };
+    let mut p = 0usize;
+    for i in 0..20 {
+        for j in i + 1..20 {
+            for sign in 0..2 {
+                p += 1;
+                if p % ctx.nshards != ctx.shard { continue; }
+                let mut f = Forge::honest(ctx, &ms);
+                let d = Scalar::from(1 + ctx.prng.gen_range(0..1000u64));
+                coord(&mut f, i, d);
+                coord(&mut f, j, if sign == 0 { d } else { -d });
+                let draft = match f.atoms(ctx, w, &Scalar::zero()) { Some(d) => d, None => return };
+                let c = match merchant_challenge(ctx, w, &a, &draft) { Some(c) => c, None => return };
+                let dd = match f.atoms(ctx, w, &c) { Some(d) => d, None => return };
+                let _ = initialize_check(ctx, w, &a, &dd, None, "witness-deviation-pair");
+            }
+        }
+    }
+}
+
 /// post-challenge choice of every non-response field, for hidden values differing from the agreed ones
 fn adaptive_cases(ctx: &mut Ctx, w: &World, idx: usize) {
     if !ctx.begin_case(idx, "establish-adaptive") {
@@ -305,6 +338,11 @@ pub fn run(ctx: &mut Ctx) {
             idx += 1; relation_cases(ctx, &w, idx);
             idx += 1; adaptive_cases(ctx, &w, idx);
         }
+    }
+    // every shard takes its share of the pairs
+    let sweeps = if ctx.thorough() { 4 } else { 1 };
+    for k in 0..sweeps {
+        sweep_cases(ctx, &w, (4096 + k) * ctx.nshards + ctx.shard);
     }
     let _ = (Real::B(true), Scalar::one());
 }
